@@ -181,11 +181,17 @@ class Prov:
     (``.append(entry)``, ``yield entry``, comprehension elements): routing obligations move there.
     """
 
-    def __init__(self, cls: ast.ClassDef, map_attr: str, methods: Optional[Dict[str, ast.AST]] = None):
+    def __init__(self, cls: ast.ClassDef, map_attr: str, methods: Optional[Dict[str, ast.AST]] = None,
+                 seed: Optional[Dict[str, Dict[str, str]]] = None):
         self.cls = cls
         self.map_attr = map_attr
         self.methods: Dict[str, ast.AST] = dict(methods) if methods is not None else {n.name: n for n in cls.body if isinstance(n, FuncNode)}
         self.env: Dict[int, Dict[str, Tuple[str, Optional[str]]]] = {id(f): {} for f in self.methods.values()}
+        # kinds known from outside: {method: {parameter: kind}} (the constructor's map parameter is the live map)
+        for mname, kinds in (seed or {}).items():
+            if mname in self.methods:
+                for pn_, k_ in kinds.items():
+                    self.env[id(self.methods[mname])][pn_] = (k_, None)
         self.attr: Dict[str, str] = {}
         self.helper: Dict[str, str] = {}
         self.bindings: List[Tuple[ast.AST, str, str, Optional[str], ast.AST]] = []  # (fn, qvar, lockvar, keyvar, source expr)
@@ -299,7 +305,8 @@ class Prov:
         if isinstance(target, ast.Name):
             self._set(fn, target.id, k)
         elif isinstance(target, ast.Attribute) and isinstance(target.value, ast.Name) and target.value.id == "self":
-            if kind in (K_ENTRIES, K_ITEMS, K_KEYS) and target.attr != self.map_attr:
+            if kind in (K_ENTRIES, K_ITEMS, K_KEYS, K_MAP) and target.attr != self.map_attr:
+                # K_MAP: a copy of the map kept in an attribute (the live map itself is ``map_attr`` only)
                 self.attr[target.attr] = kind
                 if final:
                     self.feeds.setdefault(f"attr:{target.attr}", []).append((fn, src, None, "value"))
@@ -515,6 +522,8 @@ def run(repo: Repo, R: Report) -> None:
     sfl = _Flow(sinit)
     sub_map = None
     map_rebinds: List[Tuple[ast.AST, ast.AST]] = []
+    # attributes that take something computed from the map parameter (a copy, a snapshot, a filtered view of it)
+    derived_maps: List[Tuple[str, ast.AST, ast.AST]] = []
     pattern_param = sparams[2]
     # (attribute, store statement, what the stored value stands for, parameter it names | None, statements rebinding it)
     pat_stores: List[Tuple[str, ast.AST, ast.AST, Optional[str], List[ast.AST]]] = []
@@ -532,6 +541,8 @@ def run(repo: Repo, R: Report) -> None:
             map_rebinds += [(st, rb) for rb in rebinds]
         elif pname == pattern_param or (pname is None and _mentions(shown, pattern_param) and not _mentions(shown, sparams[1])):
             pat_stores.append((d[5:], st, shown, pname, rebinds))
+        elif pname is None and _mentions(shown, sparams[1]):
+            derived_maps.append((d[5:], st, shown))
     # the pattern attribute: the one that takes the pattern parameter itself; failing that (the constructor stores
     # something computed from the parameter) the one the matcher is called with
     direct = [p_ for p_ in pat_stores if p_[3] == pattern_param]
@@ -540,6 +551,18 @@ def run(repo: Repo, R: Report) -> None:
                 for a in c.args for x in ast.walk(a) if isinstance(x, ast.Attribute) and isinstance(x.value, ast.Name) and x.value.id == "self"}
         direct = [p_ for p_ in pat_stores if p_[0] in used]
     sub_pattern = direct[0][0] if direct and len({p_[0] for p_ in direct}) == 1 else None
+    r_alias = R.rule("C14-D1-alias", "every subscription is constructed on the shared channel map itself (not a copy or a per-channel view) and with the caller's pattern", 1)
+    if sub_map is None and derived_maps:
+        # no attribute holds the map argument itself: what the subscription keeps is computed from it at subscribe time
+        # (a copy, a snapshot of its items, a filtered view) - the one its other methods read stands in for the map below
+        read_elsewhere = {x.attr for k_, m_ in nmethods[SUBSCRIPTION].items() if m_ is not sinit for x in ast.walk(m_)
+                          if isinstance(x, ast.Attribute) and isinstance(x.ctx, ast.Load) and _recv_is_self(x.value)}
+        cands = [dm for dm in derived_maps if dm[0] in read_elsewhere] or derived_maps
+        d_attr, d_st, d_shown = cands[0]
+        R.violation(r_alias, F, f"{SUBSCRIPTION}.__init__", norm(d_st),
+                    f"the subscription keeps `{norm(d_shown)[:80]}`, something computed from the channel map at subscribe time, instead of the transport's live map `{sparams[1]}`: "
+                    "a channel a publisher creates afterwards never appears in it, so messages published to a not-yet-existing channel are never delivered to this matching subscription", d_st.lineno)
+        sub_map = d_attr
     if sub_map is None or sub_pattern is None:
         raise AnalysisError("InMemorySubscription.__init__: queue map / pattern attributes not recognised")
 
@@ -587,7 +610,6 @@ def run(repo: Repo, R: Report) -> None:
                     f"`{sp_}` is not (only) the standard library's fnmatch here" + (f" (also bound by `{norm(other[0])[:80]}`)" if other else "") + ": channels are matched by other rules than the subscription pattern's", c.lineno)
 
     # ---- R4 alias -------------------------------------------------------------
-    r_alias = R.rule("C14-D1-alias", "every subscription is constructed on the shared channel map itself (not a copy or a per-channel view) and with the caller's pattern", 1)
     n_ctor = 0
     for st, rb in map_rebinds:
         R.violation(r_alias, F, f"{SUBSCRIPTION}.__init__", norm(rb), f"the channel map handed to the subscription is replaced before it is stored (`{norm(st)}`): the subscription does not see the transport's live channel map", getattr(rb, "lineno", 0))
@@ -622,7 +644,8 @@ def run(repo: Repo, R: Report) -> None:
     publish_append_locks: List[List[str]] = []
     removal_sites: List[Tuple[str, ast.AST]] = []
 
-    prov = {TRANSPORT: Prov(tcls, shared_map, nmethods[TRANSPORT]), SUBSCRIPTION: Prov(scls, sub_map, nmethods[SUBSCRIPTION])}
+    prov = {TRANSPORT: Prov(tcls, shared_map, nmethods[TRANSPORT]),
+            SUBSCRIPTION: Prov(scls, sub_map, nmethods[SUBSCRIPTION], seed={"__init__": {sparams[1]: K_MAP}})}
 
     def map_expr(e: ast.AST, cls_name: str, fn: Optional[ast.AST] = None) -> bool:
         d = dotted_name(e)
@@ -798,6 +821,12 @@ def run(repo: Repo, R: Report) -> None:
         else:
             R.ok(r_cid, F, qn, norm(stmt(src)), f"filed under parameter {pn_}", getattr(src, "lineno", 0))
 
+    # ---- critical sections end before control leaves the transport -----------------------------------------
+    _lock_scope(R, prov, deque_bindings, map_lock)
+
+    # ---- every scan reads the live map ------------------------------------------------------------------
+    _live_scan(R, prov[SUBSCRIPTION], deque_bindings, sub_map)
+
     # ---- entry stability --------------------------------------------------------------
     r_stab = R.rule("C14-D1-entry-stability", "a channel's (deque, lock) entry is never removed or replaced while a publisher may have fetched it and not yet appended", 1)
     if not removal_sites:
@@ -862,6 +891,119 @@ def run(repo: Repo, R: Report) -> None:
                     live = [x for x in ast.walk(n.value) if sp.kind(x, mfn)[0] == K_MAP]
                     R.check(not live, r_scan, F, f"{SUBSCRIPTION}.{mfn.name}", norm(n),
                             f"the scan-progress marker self.{t.attr} is taken from a fresh read of the live channel map, not from the snapshot that was scanned: a channel created between the snapshot and this read counts as scanned without ever having been matched, and its messages are never delivered to this subscription", n.lineno)
+
+
+def _lock_scope(R: Report, prov: Dict[str, "Prov"], deque_bindings, map_lock: Optional[str]) -> None:
+    """A critical section of the transport (a channel's own lock, the map lock) covers C-level queue / map operations only.
+    A generator that suspends inside one keeps the lock for as long as its consumer handles the message (until the
+    next ``next()`` or the collection of the generator); a callable supplied by the caller that is invoked inside one runs
+    arbitrary consumer code under the lock.  Either way every publisher of that channel blocks meanwhile, and a consumer
+    that publishes to the channel (re-queue, ping/pong between two consumers) - or waits for a thread that does - never
+    returns: the messages still queued are never delivered."""
+    r_ls = R.rule("C14-D2-lock-scope", "no channel lock and not the map lock is held while control is outside the transport: inside a critical section a generator never suspends (yield / yield from / await) and no caller-supplied callable is invoked", 1)
+    for cname in (TRANSPORT, SUBSCRIPTION):
+        for fn in prov[cname].methods.values():
+            qn = f"{cname}.{fn.name}"
+            known = {lv: "the channel's lock" for (_q, bfn, _qv, lv, _kv) in deque_bindings if bfn is fn}
+            if map_lock is not None:
+                known[f"self.{map_lock}"] = "the map lock"
+            for n in ast.walk(fn):
+                what = None
+                if isinstance(n, (ast.Yield, ast.YieldFrom, ast.Await)):
+                    what = "the generator suspends" if not isinstance(n, ast.Await) else "the coroutine suspends"
+                elif isinstance(n, ast.Call) and isinstance(n.func, ast.Name):
+                    # callables the caller supplied: parameters of this method and of the functions nested in it
+                    owners = [a for a in ancestors(n) if isinstance(a, FuncNode + (ast.Lambda,))]
+                    owners = owners[:next((i for i, a in enumerate(owners) if a is fn), len(owners) - 1) + 1]
+                    pnames = {x.arg for o in owners for x in o.args.posonlyargs + o.args.args + o.args.kwonlyargs} - {"self", "cls"}
+                    rebound = any(isinstance(x, ast.Name) and x.id == n.func.id and isinstance(x.ctx, ast.Store) for o in owners for x in ast.walk(o))
+                    if n.func.id in pnames and not rebound:
+                        what = f"the caller-supplied callable `{n.func.id}` is invoked"
+                if what is None:
+                    continue
+                held = [h for h in locks_held(n) if h in known]
+                if held:
+                    R.violation(r_ls, F, qn, norm(stmt(n)), f"{what} while `{held[0]}` ({known[held[0]]}) is held: the lock stays held while consumer code runs - publishers of the channel block, "
+                                "and a consumer that publishes to it (or waits for a thread that does) while handling the message deadlocks, so the remaining messages are never delivered", n.lineno)
+                elif not isinstance(n, ast.Call):
+                    R.ok(r_ls, F, qn, norm(stmt(n)), "suspension point outside every critical section", n.lineno)
+
+
+def _live_scan(R: Report, sp: "Prov", deque_bindings, sub_map: str) -> None:
+    """Which channels exist is only known to the live map: a publisher creates a channel's entry at its first publish.
+    Every use a method of the subscription makes of a channel's queue or lock is therefore preceded, in the same call, by a
+    read of the live map (items / keys / values / lookup / one-call snapshot) - on every path.  A subscription that serves
+    queues it remembered from an earlier call (a snapshot cached in an attribute, a copy made by the constructor) never
+    sees a channel created since, and the messages published to it are never delivered to this matching subscription."""
+    r_lv = R.rule("C14-D1-live-scan", "every use of a channel's queue or lock in the subscription is preceded, in the same call and on every path, by a read of the live channel map (a scan never works from channels remembered in the subscription's own state only)", 1)
+    live_attr = f"self.{sub_map}"
+    memo: Dict[int, bool] = {}
+
+    def live_map(e: ast.AST, fn: ast.AST, depth: int = 0) -> bool:
+        if dotted_name(e) == live_attr:
+            return True
+        if isinstance(e, ast.Name) and depth < 3 and e.id not in {a.arg for a in fn.args.args}:
+            vals = _assigned(fn, e.id)
+            n_bind = sum(1 for x in ast.walk(fn) if isinstance(x, ast.Name) and x.id == e.id and isinstance(x.ctx, (ast.Store, ast.Del)))
+            return bool(vals) and len(vals) == n_bind and all(live_map(v, fn, depth + 1) for v in vals)
+        return False
+
+    def reads_live(part: Optional[ast.AST], fn: ast.AST, depth: int) -> bool:
+        if part is None:
+            return False
+        for x in ast.walk(part):
+            if isinstance(x, ast.Subscript) and live_map(x.value, fn):
+                return True
+            if isinstance(x, ast.Call):
+                if isinstance(x.func, ast.Attribute) and live_map(x.func.value, fn):
+                    return True
+                if isinstance(x.func, ast.Name) and x.func.id in PASS_THROUGH | {"dict", "set", "frozenset"} and x.args and live_map(x.args[0], fn):
+                    return True
+                if (isinstance(x.func, ast.Attribute) and _recv_is_self(x.func.value) and x.func.attr in sp.methods
+                        and sp.methods[x.func.attr] is not fn and depth < 3 and always_reads(sp.methods[x.func.attr], depth + 1)):
+                    return True
+            if isinstance(x, (ast.For, ast.comprehension)) and live_map(x.iter, fn):
+                return True
+        return False
+
+    def always_reads(h: ast.AST, depth: int) -> bool:
+        """Every path from the entry of helper *h* to a point where it hands something out (return, yield) reads the live map."""
+        if id(h) in memo:
+            return memo[id(h)]
+        memo[id(h)] = False
+        g = CFG(h, may_raise=lambda part: set())
+        outs = [g.ret_exit] + [n.id for n in g.nodes if n.part is not None and not isinstance(n.ast, FuncNode)
+                               and any(isinstance(x, (ast.Yield, ast.YieldFrom)) for x in walk_no_nested(n.part))]
+        pred = lambda n: reads_live(n.part, h, depth)
+        outs = [o for o in outs if not pred(g.nodes[o])]
+        memo[id(h)] = not g.must_pass([g.entry], outs, pred)
+        return memo[id(h)]
+
+    for qn, fn, qv, lv, _kv in deque_bindings:
+        if not qn.startswith(SUBSCRIPTION + ".") or fn.name == "__init__":
+            continue
+        params = {a.arg for a in fn.args.posonlyargs + fn.args.args + fn.args.kwonlyargs}
+        if qv in params or lv in params:
+            continue  # handed in by a caller: passing them is a use there
+        g = CFG(fn, may_raise=lambda part: set())
+        pred = lambda n, fn=fn: reads_live(n.part, fn, 0)
+
+        def uses(n, qv=qv, lv=lv) -> bool:
+            if n.part is None or isinstance(n.ast, FuncNode):
+                return False
+            return any(isinstance(x, ast.Name) and x.id in (qv, lv) and isinstance(x.ctx, ast.Load) for x in ast.walk(n.part))
+        targets = [n.id for n in g.nodes if uses(n) and not pred(n)]
+        bad = g.must_pass([g.entry], targets, pred)
+        if bad:
+            nid, path = bad[0]
+            node = g.nodes[nid]
+            shown = ("with " + ", ".join(norm(i.context_expr) for i in node.ast.items) if node.kind == "with" and isinstance(node.ast, (ast.With, ast.AsyncWith))
+                     else f"{node.kind} {norm(node.part)}" if node.kind in ("if", "while", "for") else norm(node.ast).split("\n")[0])
+            R.violation(r_lv, F, qn, shown[:160],
+                        f"the queue / lock `{qv}` / `{lv}` of a channel is used on a path of this call that has not read the live channel map self.{sub_map}: the channels served come from what the subscription "
+                        "remembered earlier, a channel created since is never scanned and the messages published to it are never delivered to this matching subscription", node.line, path)
+        else:
+            R.ok(r_lv, F, qn, f"uses of ({qv}, {lv})", "every use follows a read of the live map", fn.lineno)
 
 
 CONTAINER_BASES = {"tuple", "list", "dict", "set", "frozenset", "str", "bytes", "bytearray", "deque", "OrderedDict", "defaultdict", "Counter", "ChainMap",
@@ -1721,6 +1863,12 @@ def _entry_param(fl: "_Flow", fn: ast.AST, e: ast.AST, use: Optional[int]) -> Tu
         while (isinstance(x, ast.Call) and isinstance(x.func, ast.Name) and x.func.id == "str" and len(x.args) == 1 and not x.keywords
                and isinstance(x.args[0], ast.Name) and x.args[0].id in annotated_str):
             x = x.args[0]
+        # ``p if p is not None else <default>`` / ``<default> if p is None else p`` is p whenever an argument was given
+        if (isinstance(x, ast.IfExp) and isinstance(x.test, ast.Compare) and len(x.test.ops) == 1 and isinstance(x.test.left, ast.Name)
+                and x.test.left.id in params and _is_none(x.test.comparators[0]) and x.test.comparators[0] is not None):
+            keep_ = x.body if isinstance(x.test.ops[0], ast.IsNot) else x.orelse if isinstance(x.test.ops[0], ast.Is) else None
+            if isinstance(keep_, ast.Name) and keep_.id == x.test.left.id:
+                return keep_
         return x
 
     shown = unwrap(e)
@@ -1730,11 +1878,25 @@ def _entry_param(fl: "_Flow", fn: ast.AST, e: ast.AST, use: Optional[int]) -> Tu
             shown = unwrap(v)
     if not (isinstance(shown, ast.Name) and shown.id in params) or use is None:
         return None, [], shown
+    def none_atom(t: ast.AST) -> Optional[bool]:
+        if (isinstance(t, ast.Compare) and len(t.ops) == 1 and isinstance(t.left, ast.Name) and t.left.id == shown.id
+                and _is_none(t.comparators[0]) and t.comparators[0] is not None):
+            return True if isinstance(t.ops[0], ast.Is) else False if isinstance(t.ops[0], ast.IsNot) else None
+        return None
+
     rebinds: List[ast.AST] = []
     for d in fl.defs(shown.id):
         starts = [t for t, _l in fl.g.succ[d]]
         if use in starts or use in fl.g.reach(starts):
             if fl.g.nodes[d].ast is not None:
+                # a default filled in on a branch only an omitted argument (``p is None``) takes rewrites no argument given
+                only_none, _path, guards = fl.only_through(none_atom, [d])
+                if only_none and guards > 0:
+                    continue
+                a_ = fl.g.nodes[d].ast
+                if (fl.g.nodes[d].kind == "stmt" and isinstance(a_, ast.Assign) and len(a_.targets) == 1 and isinstance(a_.targets[0], ast.Name)
+                        and isinstance(unwrap(a_.value), ast.Name) and unwrap(a_.value).id == shown.id):
+                    continue  # ``p = p if p is not None else <default>``
                 rebinds.append(fl.g.nodes[d].ast)
     return shown.id, rebinds, shown
 
